@@ -25,6 +25,8 @@ def main(argv=None):
     a = ap.parse_args(argv)
     pid, tier, seed = a.pid, a.tier, a.seed
     t0 = time.time()
+    import shutil
+    shutil.rmtree(os.path.join(ROOT, 'replays', pid), ignore_errors=True)
     cfg = props.PROPS[pid]
     fails, crashes = [], []
     coverage = {}
